@@ -562,7 +562,10 @@ func admRandomCase(seed int64, idx int, tier string) admCase {
 	if cs.Shared && rng.Intn(3) == 0 {
 		cs.Conc = 2 + rng.Intn(3)
 	}
-	cs.PartialMeta = rng.Intn(6) == 0
+	// not together with concurrent callers: a caller that finds the controller just deregistered by another one
+	// refreshes by itself, and with partial metadata that refresh reports the missing topic's error to the
+	// operation - a client-side effect of concurrent use, which is counted, not judged (like ErrNotConnected)
+	cs.PartialMeta = cs.Conc <= 1 && rng.Intn(6) == 0
 	n := 12
 	if tier == "thorough" {
 		n = 24
